@@ -43,7 +43,7 @@ func genRenderLeaf(r *rand.Rand) V {
 
 var symbols = []string{"&", "&&", "|", "∧", "!", "and_also", "Plus"}
 var delims = []string{",", " ", ";", "·", ", "}
-var encs = [][]string{{"\""}, {"'"}, {"<", ">"}, {"[", "]"}, {"«", "»"}, {"{{", "}}"}}
+var encs = [][]string{{"\""}, {"'"}, {"<", ">"}, {"[", "]"}, {"«", "»"}, {"{{", "}}"}, {"[", ">"}, {"(", "»"}}
 
 func genRenderCfg(r *rand.Rand, kind int) Cfg {
 	c := Cfg{Kind: kind}
@@ -196,9 +196,17 @@ func genRerender(r *rand.Rand, id string, tier string) string {
 		if len(t.Xs) > 0 && r.Intn(2) == 0 {
 			target = fmt.Sprint(r.Intn(len(t.Xs)))
 		}
-		switch r.Intn(5) {
+		switch r.Intn(6) {
 		case 0:
 			ops = append(ops, "render")
+		case 5:
+			// another encapsulation pair for the root: refused if one of its characters is in use by ANY stored pair
+			e := encs[r.Intn(len(encs))]
+			var hs []string
+			for _, x := range e {
+				hs = append(hs, hx(x))
+			}
+			ops = append(ops, "enc "+strings.Join(hs, "/"), "render")
 		default:
 			ops = append(ops, fmt.Sprintf("opt %s %s %s", target, []string{"paren", "fold", "nopad", "lonce"}[r.Intn(4)], []string{"0", "1", "t"}[r.Intn(3)]))
 			ops = append(ops, "render")
@@ -217,6 +225,13 @@ func runRerender(payload string) string {
 		switch t[0] {
 		case "render":
 			outs = append(outs, "S"+hx(s.String()))
+		case "enc":
+			var e []string
+			for _, h := range strings.Split(t[1], "/") {
+				e = append(e, unhx(h))
+			}
+			s.SetEncap(e)
+			outs = append(outs, "-")
 		case "opt":
 			tgt := s
 			ok := true
